@@ -58,4 +58,15 @@ PROPS = {
             "thorough": [dict(test="TestC04Random", checks=100000, shards=16, timeout=3000), dict(test="TestC04KnownFinding", checks=3)],
         },
     ),
+    "C07": dict(
+        kind="ext", pkg="./c07", level="exploration", engine="bubble",
+        technique="model-based property testing (rapid histories against a reference model of accepted shares per duty/validator/subcommittee)",
+        level_text="Generated histories of internal/external batches with duplicates, equivocations, minority roots, rejected entries, expiries against the production MemDB; "
+                   "every call's error, threshold triggers (exactly the matching group, exactly once) and internal fan-out are compared with a reference model.",
+        level_note="Single-threaded histories (the bubble cannot pre-empt inside the store's mutex); signatures are opaque bytes (the store never verifies them); 2t>n; exempt-duty cap not reached.",
+        runs={
+            "quick": [dict(test="TestC07Model", checks=8000, shards=4), dict(test="TestC07Regression", mode="plain")],
+            "thorough": [dict(test="TestC07Model", checks=150000, shards=16, timeout=3000), dict(test="TestC07Regression", mode="plain")],
+        },
+    ),
 }
